@@ -323,6 +323,24 @@ func runCheck(opts checkOpts) int {
 			toolErr = true
 		}
 		if prop == "C14" || prop == "C09" || prop == "C01" || prop == "C16" {
+			// the guard guarded: the probed-consistency cover must still refute the prelude as it
+			// was before the errNew axiom got its guard (the contradiction the seeded corpus found)
+			good := p.prelude(false)
+			const fixed = "(=> (> r 0) (and (= (f_eref (f_errNew r m)) r) (= (f_msg (f_errNew r m)) m) (f_plainErr (f_errNew r m))))"
+			const broken = "(and (= (f_eref (f_errNew r m)) r) (= (f_msg (f_errNew r m)) m) (f_plainErr (f_errNew r m)))"
+			if strings.Contains(good, fixed) {
+				bad := strings.Replace(good, fixed, broken, 1)
+				o := &Obligation{Name: "prelude/selftest/probe-refutes-known-contradiction", Fn: "prelude", Kind: "lemma", Expect: "unsat",
+					Script: bad + preludeProbe(bad) + "(check-sat)\n"}
+				solveAll([]*Obligation{o}, 20, false, work)
+				p.probeSelftest = map[string]interface{}{"what": "probed-consistency cover run on the prelude with the former errNew axiom restored", "expected": "unsat", "got": o.Result.Status, "solver": o.Result.Solver}
+				if o.Result.Status != "unsat" {
+					fmt.Println("bipverif: the prelude probe no longer refutes the known contradiction")
+					toolErr = true
+				}
+			} else {
+				p.probeSelftest = map[string]interface{}{"what": "skipped: the errNew axiom has a different text now"}
+			}
 			er, err := runEngineSelftest()
 			p.engineTest = er
 			if err != nil {
